@@ -195,6 +195,12 @@ fn gen_image(rng: &mut Rng, thorough: bool) -> Value {
         6 => 200 + rng.below(57) as usize,
         _ => 257 + rng.below(if thorough { 300 } else { 60 }) as usize,
     };
+    // enough room for the colours asked for (the > 256 colour cases matter for the register bound)
+    let (h, w) = if ncol >= 200 && h >= 6 && h * w < ncol + 20 {
+        (12 + rng.below(19) as usize, 20 + rng.below(21) as usize)
+    } else {
+        (h, w)
+    };
     let pal = palette(rng, ncol.min(h.max(1) * w).max(1));
     let with_alpha = rng.chance(1, 4);
     let mut px: Vec<Rgb> = vec![[0, 0, 0]; h * w];
